@@ -62,6 +62,8 @@ package xsync
 //@ define sepB(m, t) = forall b: *bucketPadded :: own(t, b) ==> objid(b) != objid(m) && objid(b) != objid(t) && objid(b) != objid(addr(t.size[0]))
 //@ define mapRIx(m) = m != nil && m.resizing == 0 && pow2(m.minTableLen) && tableInv(tab(m)) && locksFree(tab(m)) && sepT(m, tab(m)) && sepB(m, tab(m))
 //@ define mapRI(m) = mapRIx(m) && view(m) == tview[tab(m)]
+//@ define mapRIc(m) = m != nil && pow2(m.minTableLen) && tableInv(tab(m)) && sepT(m, tab(m)) && sepB(m, tab(m))
+//@ define hdrStable(t) = t != nil ==> addr(t.buckets[0]) == old(addr(t.buckets[0])) && len(t.buckets) == old(len(t.buckets)) && addr(t.size[0]) == old(addr(t.size[0])) && len(t.size) == old(len(t.size)) && t.seed == old(t.seed)
 
 // ---------------------------------------------------------------------------------------------
 // Disciplines on the table layer (C13 lock set / monitor, C14 access classes, C05 invocation counts, C16 effects).
@@ -92,6 +94,7 @@ package xsync
 //@   serves C13 C14
 //@   requires m != nil
 //@   ensures {C16} effect.nolock: nacquire() == 0 && nblocking() == 0
+//@   ensures {C03} post.value: res0 == (tab(m) != table)
 
 //@ func (*Map).waitForResize
 //@   serves C13 C14
@@ -162,8 +165,10 @@ package xsync
 //@   modifies view(m), allmem, tview, slotb, sloti, tbl, ridx, pos, clen
 //@   let o = old(view(m))[key]
 //@   let called = !(loadIfExists && present(o))
+//@   onlock {C03} quiescent: mapInv(m) && mapRIc(m) && view(m) == tview[tab(m)] && hdrStable(table)
+//@   loop compute_attempt: invariant {tintf} shape: mapInv(m) && tblShape(tab(m)) && pow2(m.minTableLen)
 //@   loop compute_attempt: invariant {C05} noinvocation: ncb(valueFn) == 0 && nheld() == 0
-//@   loop compute_attempt: invariant {C11,C03} unchanged: mapInv(m) && mapRI(m) && view(m) == old(view(m)) && called
+//@   loop compute_attempt: invariant {C11,C03,seq} unchanged: mapInv(m) && mapRI(m) && view(m) == old(view(m)) && called
 //@   loop for.body: invariant cursor: b != nil && rootb != nil && holds(addr(rootb.topHashMutex)) && table == tab(m) && ncb(valueFn) == 0
 //@   loop for.body: invariant {C11,C03} walk: own(table, b) && ridx[b] == idxOf(table, key) && rootb == root(table, idxOf(table, key)) && hash == hashString(key, table.seed) && (present(o) ==> pos[slotb[table][key]] >= pos[b])
 //@   loop for.body: invariant {C11,C03} empty: emptyb != nil ==> own(table, emptyb) && ridx[emptyb] == idxOf(table, key) && 0 <= emptyidx && emptyidx < 3 && emptyb.keys[emptyidx] == nil
@@ -184,13 +189,14 @@ package xsync
 //@   ensures {C11,C03} post.deleted.res: called && del ==> res0 == valOr0(o) && res1 == (present(o) && !computeOnly)
 //@   ensures {C11,C03} post.stored.view: called && !del ==> view(m) == put(old(view(m)), key, nv)
 //@   ensures {C11,C03} post.stored.res: called && !del ==> res0 == ite(computeOnly || !present(o), nv, val(o)) && res1 == (computeOnly || present(o))
-//@   ensures private {C11,C03} post.ri.shape: m != nil && m.resizing == 0 && pow2(m.minTableLen) && tblShape(tab(m))
+//@   ensures private {C11,C03,seq} post.ri.resizing: m.resizing == 0
+//@   ensures private {C11,C03} post.ri.shape: m != nil && pow2(m.minTableLen) && tblShape(tab(m))
 //@   ensures private {C11,C03} post.ri.chains: chains(tab(m))
 //@   ensures private {C11,C03} post.ri.roots: roots(tab(m))
 //@   ensures private {C11,C03} post.ri.inj: chainsInj(tab(m))
 //@   ensures private {C11,C03} post.ri.slots: slots(tab(m))
 //@   ensures private {C11,C03} post.ri.viewSlots: viewSlots(tab(m))
-//@   ensures private {C11,C03} post.ri.locksFree: locksFree(tab(m))
+//@   ensures private {C11,C03,seq} post.ri.locksFree: locksFree(tab(m))
 //@   ensures private {C11,C03} post.ri.view: view(m) == tview[tab(m)]
 //@   ensures private {C11,C03} post.ri.sep: sepT(m, tab(m)) && sepB(m, tab(m))
 //@   ensures mapInv(m)
@@ -224,6 +230,7 @@ package xsync
 //@ define sepBO(m, t) = forall b: *bucketOfPadded :: own(t, b) ==> objid(b) != objid(m) && objid(b) != objid(t) && objid(b) != objid(addr(t.size[0]))
 //@ define mapOfRIx(m) = m != nil && m.hasher != nil && m.resizing == 0 && pow2(m.minTableLen) && tableInvO(m, tabOf(m)) && sepTO(m, tabOf(m)) && sepBO(m, tabOf(m))
 //@ define mapOfRI(m) = mapOfRIx(m) && view(m) == tviewOf[tabOf(m)]
+//@ define mapOfRIc(m) = m != nil && m.hasher != nil && pow2(m.minTableLen) && tableInvO(m, tabOf(m)) && sepTO(m, tabOf(m)) && sepBO(m, tabOf(m))
 
 //@ func (*MapOf[K, V]).resizeInProgress
 //@   serves C13 C14
@@ -235,6 +242,7 @@ package xsync
 //@   serves C13 C14
 //@   requires m != nil
 //@   ensures {C16} effect.nolock: nacquire() == 0 && nblocking() == 0
+//@   ensures {C04} post.value: res0 == (tabOf(m) != table)
 
 //@ func (*MapOf[K, V]).waitForResize
 //@   serves C13 C14
@@ -298,8 +306,10 @@ package xsync
 //@   modifies view(m), allmem, tviewOf, slotbOf, slotiOf, tbl, ridx, pos, clen
 //@   let o = old(view(m))[key]
 //@   let called = !(loadIfExists && present(o))
+//@   onlock {C04} quiescent: mapInv(m) && mapOfRIc(m) && view(m) == tviewOf[tabOf(m)] && hdrStable(table) && m.hasher == old(m.hasher)
+//@   loop compute_attempt: invariant {tintf} shape: mapInv(m) && m.hasher != nil && tblShapeOf(tabOf(m)) && pow2(m.minTableLen)
 //@   loop compute_attempt: invariant {C05} noinvocation: ncb(valueFn) == 0 && nheld() == 0
-//@   loop compute_attempt: invariant {C11,C04} unchanged: mapInv(m) && mapOfRI(m) && view(m) == old(view(m)) && called
+//@   loop compute_attempt: invariant {C11,C04,seq} unchanged: mapInv(m) && mapOfRI(m) && view(m) == old(view(m)) && called
 //@   loop for.body: invariant cursor: b != nil && rootb != nil && holds(addr(rootb.mu)) && table == tabOf(m) && ncb(valueFn) == 0
 //@   loop for.body: invariant {C11,C04} walk: own(table, b) && ridx[b] == idxOfO(m, table, key) && rootb == rootO(table, idxOfO(m, table, key)) && hash == hashOf(m, table, key) && h2 == h2(hash) && h2w == broadcast(h2(hash)) && (present(o) ==> pos[slotbOf[table][key]] >= pos[b])
 //@   loop for.body: invariant {C11,C04} empty: emptyb != nil ==> own(table, emptyb) && ridx[emptyb] == idxOfO(m, table, key) && 0 <= emptyidx && emptyidx < 5 && emptyb.entries[emptyidx] == nil
@@ -321,7 +331,8 @@ package xsync
 //@   ensures {C11,C04} post.deleted.res: called && del ==> res0 == valOr0(o) && res1 == (present(o) && !computeOnly)
 //@   ensures {C11,C04} post.stored.view: called && !del ==> view(m) == put(old(view(m)), key, nv)
 //@   ensures {C11,C04} post.stored.res: called && !del ==> res0 == ite(computeOnly || !present(o), nv, val(o)) && res1 == (computeOnly || present(o))
-//@   ensures private {C11,C04} post.ri.shape: m != nil && m.hasher != nil && m.resizing == 0 && pow2(m.minTableLen) && tblShapeOf(tabOf(m))
+//@   ensures private {C11,C04,seq} post.ri.resizing: m.resizing == 0
+//@   ensures private {C11,C04} post.ri.shape: m != nil && m.hasher != nil && pow2(m.minTableLen) && tblShapeOf(tabOf(m))
 //@   ensures private {C11,C04} post.ri.chains: chainsO(tabOf(m))
 //@   ensures private {C11,C04} post.ri.roots: rootsO(tabOf(m))
 //@   ensures private {C11,C04} post.ri.inj: chainsInjO(tabOf(m))
